@@ -284,11 +284,16 @@ impl Client {
             })?;
         tracing::debug!("[Client] TLS handshake successful");
 
+        // A scheme pushed by the server replaces the configured one for every session opened
+        // afterwards: it is announced (so the server need not push it again) and shapes the
+        // session from its first packet.
+        let padding = PaddingFactory::pushed().unwrap_or_else(|| self.padding.clone());
+
         // Send authentication
         // Split TLS stream into reader and writer
         let (reader, mut writer) = tokio::io::split(tls_stream);
         tracing::trace!("[Client] Sending authentication");
-        send_authentication(&mut writer, &self.password_hash, &self.padding).await?;
+        send_authentication(&mut writer, &self.password_hash, &padding).await?;
         tracing::debug!("[Client] Authentication sent successfully");
 
         // Create session with reader and writer
@@ -299,7 +304,7 @@ impl Client {
         let session = Arc::new(Session::new_client(
             reader,
             writer,
-            self.padding.clone(),
+            padding,
             Some(heartbeat_config),
         ));
 
